@@ -100,6 +100,8 @@ class Extract:
         if self.signature:
             self.log["rewrites"]["S5_signature_replaced"] = dict(old=sig, new=" ".join(t.strip() for t, _ in self.signature))
             sig = " ".join(t.strip() for t, _ in self.signature)
+            if self.rename:
+                sig = re.sub(r"\bfn\s+\w+", "fn " + self.rename, sig, count=1)
         # ----- body: char-level rewrites keeping newline count
         body = src[ob:cb + 1]
         bm = msk[ob:cb + 1]
@@ -123,7 +125,7 @@ class Extract:
             self.log["rewrites"].setdefault("dropped_arms", []).append(dict(header=da["header"], lines=[first, first + nl], label=da["label"]))
         for rw in self.rewrites:
             c = body.count(rw["old"])
-            if c != rw["count"]:
+            if rw["count"] is not None and c != rw["count"]:
                 raise LostAnchor(f"{self.file}::{self.fn}: rewrite `{rw['old']}` matched {c} times, declared {rw['count']}")
             if rw["old"].count("\n") != rw["new"].count("\n"):
                 raise UnitError("rewrite must keep line count")
@@ -137,9 +139,17 @@ class Extract:
         # loops
         loop_pos = [m.start() for m in re.finditer(r"\b(?:for|while|loop)\b", bm)]
         for n, lines in self.loops.items():
-            if n < 1 or n > len(loop_pos):
-                raise LostAnchor(f"{self.file}::{self.fn}: loop {n} not found ({len(loop_pos)} loops)")
-            b = find_block_after(bm, loop_pos[n - 1])
+            if isinstance(n, int):
+                if n < 1 or n > len(loop_pos):
+                    raise LostAnchor(f"{self.file}::{self.fn}: loop {n} not found ({len(loop_pos)} loops)")
+                lp = loop_pos[n - 1]
+            else:
+                hdr, k = n
+                hits = [p for p in loop_pos if norm(body[p:body.find("\n", p) if body.find("\n", p) >= 0 else len(body)]) == norm(hdr)]
+                if (k is None and len(hits) != 1) or (k is not None and k > len(hits)):
+                    raise LostAnchor(f"{self.file}::{self.fn}: loop header `{hdr}` matched {len(hits)} loops")
+                lp = hits[0] if k is None else hits[k - 1]
+            b = find_block_after(bm, lp)
             ins.append((b, [Line(t, "unit", self.unit, ul, fnname, tag_of(t)) for t, ul in lines], 0))
         # closures
         clos = list(re.finditer(r"\|[^|\n]*\|\s*->\s*([^{]+?)\s*\{", bm))
@@ -344,7 +354,11 @@ def parse_unit(path):
             elif d == "signature":
                 section = cur.signature
             elif d.startswith("loop "):
-                section = cur.loops.setdefault(int(d.split()[1]), [])
+                m = re.match(r"loop\s+(?:(\d+)|(?:#(\d+)\s+)?`(.*)`)\s*$", d)
+                if not m:
+                    raise UnitError(f"{path}:{ln}: bad loop directive")
+                key = int(m.group(1)) if m.group(1) else (m.group(3), int(m.group(2)) if m.group(2) else None)
+                section = cur.loops.setdefault(key, [])
             elif d.startswith("closure "):
                 section = cur.closures.setdefault(int(d.split()[1]), [])
             elif d.startswith("inject "):
@@ -361,10 +375,10 @@ def parse_unit(path):
                 cur.droparms.append(dict(header=m.group(1), label=m.group(2) or "R8 arm not under contract"))
                 section = None
             elif d.startswith("rewrite "):
-                m = re.match(r"rewrite\s+(\d+)\s+`(.*)`\s*=>\s*`(.*)`(?:\s*::\s*(.*))?$", d)
+                m = re.match(r"rewrite\s+(\d+|\*)\s+`(.*)`\s*=>\s*`(.*)`(?:\s*::\s*(.*))?$", d)
                 if not m:
                     raise UnitError(f"{path}:{ln}: bad rewrite directive")
-                cur.rewrites.append(dict(count=int(m.group(1)), old=m.group(2).replace("\\n", "\n"), new=m.group(3).replace("\\n", "\n"), label=m.group(4) or "declared"))
+                cur.rewrites.append(dict(count=(None if m.group(1) == "*" else int(m.group(1))), old=m.group(2).replace("\\n", "\n"), new=m.group(3).replace("\\n", "\n"), label=m.group(4) or "declared"))
                 section = None
             else:
                 raise UnitError(f"{path}:{ln}: unknown directive {d}")
